@@ -310,6 +310,14 @@ func (s *Scenario) Explore() *Stats {
 
 			mu.Lock()
 			// dedup pruning: drop children that lie after a state mark already seen at <= depth
+			if !s.Dedup {
+				// states are only counted
+				for _, m := range x.stateKeys {
+					if _, ok := seen[m.key]; !ok {
+						seen[m.key] = m.cost
+					}
+				}
+			}
 			if s.Dedup && len(x.stateKeys) > 0 {
 				cut := -1
 				for _, m := range x.stateKeys {
